@@ -15,5 +15,5 @@ func VerifResetGlobals() {
 	redactErrorFn = nil
 	safeTypeRegistry = map[reflect.Type]bool{}
 	// a fresh printer pool: no state carried over from earlier replays
-	ppFree = sync.Pool{New: func() interface{} { return new(pp) }}
+	ppFree = sync.Pool{New: ppFree.New}
 }
